@@ -210,4 +210,23 @@ AnchoredResult(kind, t, P, cs, norm, scheme) ==
 EmptyResult(kind, t) ==
     IF kind = "equal" THEN NoMatch
     ELSE LET p == IF kind = "suffix" THEN Len(t) - TrailWhite(t) ELSE 0 IN [s |-> p, e |-> p, sc |-> 0, pos |-> <<>>]
+
+(* ---------------------------------------------------------------- run-length encoded lines (giant lines in J) *)
+(* runs = << <<symbol, count>>, ... >> *)
+RECURSIVE SymAt(_, _), RunsLen(_), Expand(_, _)
+RunsLen(runs) == IF runs = <<>> THEN 0 ELSE runs[1][2] + RunsLen(Tail(runs))
+SymAt(runs, p) == IF p < runs[1][2] THEN runs[1][1] ELSE SymAt(Tail(runs), p - runs[1][2])      \* 0-based p
+(* the line with every run cut to at most k characters: contains the same windows of length < k and the same    *)
+(* embeddings of patterns shorter than k                                                                          *)
+Expand(runs, k) == IF runs = <<>> THEN <<>>
+                   ELSE [i \in 1..(IF runs[1][2] < k THEN runs[1][2] ELSE k) |-> runs[1][1]] \o Expand(Tail(runs), k)
+RECURSIVE LeadRuns(_)
+LeadRuns(runs) == IF runs # <<>> /\ IsSpace(runs[1][1]) THEN runs[1][2] + LeadRuns(Tail(runs)) ELSE 0
+RECURSIVE ToRuns(_, _)
+ToRuns(t, acc) == IF t = <<>> THEN acc
+                  ELSE IF acc # <<>> /\ acc[Len(acc)][1] = Head(t)
+                         THEN ToRuns(Tail(t), [acc EXCEPT ![Len(acc)] = <<Head(t), acc[Len(acc)][2] + 1>>])
+                         ELSE ToRuns(Tail(t), Append(acc, <<Head(t), 1>>))
+(* the line cut down to runs of at most Len(P) + 2 has a witness iff the line has one (MC_Algo!RleSound) *)
+Shortened(t, P) == Expand(ToRuns(t, <<>>), Len(P) + 2)
 ================================================================================
